@@ -355,6 +355,13 @@ def landing_sites(result, root):
 PER_PART_PER_MECH = 12
 
 
+def no_proposals_label(texts, q, kind):
+    if not q['insert'] and texts.package_rebound_by_star(q['file'], q['expr']):
+        # one mechanism whatever the query kind: `import P.M` made P.M visible, a later star import re-binds P
+        return 'no-proposals:package-name-rebound-by-later-star-import'
+    return 'no-proposals:%s:via=%s' % (kind, q['via'])
+
+
 def viol(part, mech, what, case):
     """Record a violation; every instance is counted, at most PER_PART_PER_MECH full cases per mechanism
     and worker batch are kept (each case carries the whole file tree)."""
@@ -414,7 +421,8 @@ def check_query(part, project, root, q, desc, only_attr=None):
         part.hist('literal_kinds', lit)
         part.count('builtin_value_queries')
         if not proposals:
-            viol(part, 'no-proposals:%s:%s' % (kind, q['sub']),
+            # one label per builtin type, whether the literal is written at the cursor or returned by a function
+            viol(part, 'no-proposals:literal-value:%s' % q['sub'].replace('returns literal ', ''),
                            'no proposals at all at `%s.|` (%s)' % (q['expr'], lit), case({'check': 'assist'}))
         else:
             part.count('builtin_value_determined')
@@ -470,10 +478,7 @@ def check_query(part, project, root, q, desc, only_attr=None):
 
     part.count('assist_comparisons', len(required))
     if required and not (proposals & set(required)):
-        why = 'via=%s' % q['via']
-        if not q['insert'] and texts.package_rebound_by_star(q['file'], q['expr']):
-            why = 'package-name-rebound-by-later-star-import'
-        viol(part, 'no-proposals:%s:%s' % (kind, why),
+        viol(part, no_proposals_label(texts, q, kind),
                        'none of the %d required names is proposed at `%s.|` (%s, %s); proposals: %s' % (
                            len(required), q['expr'], kind, q['sub'], sorted(proposals)[:8]),
                        case({'check': 'assist', 'required': sorted(required)}))
@@ -624,7 +629,7 @@ def check_module(part, project, root, q, desc, proposals, texts, case, only_attr
             part.count('module_attr_without_binding(filtered)')
     part.count('assist_comparisons', len(required))
     if required and not (proposals & set(required)):
-        viol(part, 'no-proposals:module:via=%s' % q['via'],
+        viol(part, no_proposals_label(texts, q, 'module'),
                        'none of the %d module names is proposed at `%s.|` (%s); proposals: %s' % (
                            len(required), q['expr'], q['sub'], sorted(proposals)[:8]),
                        case({'check': 'assist', 'required': sorted(required)}))
